@@ -316,7 +316,7 @@ def gp_homotopy_run(script, ts=0.0, d0=1.0):
     from .. import problems
 
     spec = {"times": ["0", "1", "2"], "states": [], "algebraics": ["y", "w"], "controls": ["u"], "parameters": ["hth"],
-            "param_values": [{"hth": "0"}],
+            "param_values": [{"hth": "0"}], "var_times": {"u": ["0", "2"]},          # (the control lives on a grid of its own)
             "residual": [["-", ["v", "y"], ["+", ["*", ["c", "3"], ["v", "hth"]], ["v", "u"]]],
                          ["-", ["v", "w"], ["*", ["v", "y"], ["v", "hth"]]]]}
     Base = problems.make_base(spec, (HomotopyMixin, GoalProgrammingMixin))
@@ -362,8 +362,11 @@ def gp_homotopy_run(script, ts=0.0, d0=1.0):
                         k = len(log)
                         ok = script[k] if k < len(script) else True
                         n = nlp["x"].shape[0]
+                        xs = np.array(x0).ravel()
+                        fi = ca.Function("i", [prob.solver_input], [ca.vertcat(*[prob.state_vector(v_, 0) for v_ in ("y", "w", "u")])])
+                        mine = [int(round(float(q))) for q in np.array(fi(ca.DM(list(range(n))))).ravel()]
                         log.append({"theta": float(prob.parameters(0)["hth"]), "priority": prob._cur_prio, "ok": bool(ok),
-                                    "x0": float(np.array(x0).ravel()[0])})
+                                    "x0": float(xs[0]), "x0_model_variables": [float(xs[i]) for i in mine]})
                         self._ok = ok
                         if k > 60:
                             raise RuntimeError("runaway loop")
@@ -410,7 +413,7 @@ def gp_homotopy_cases(ctx):
                 step_ok = True
             else:
                 want = float(k)             # the solve before it returned the vector k
-            if abs(e["x0"] - want) > 1e-9:
+            if abs(e["x0"] - want) > 1e-9 or any(abs(x - want) > 1e-9 for x in e["x0_model_variables"]):
                 ctx.violation("homotopy/gp-seed", {"script": sc, "log": log, "solve": k, "expected_start": want},
                               what="solve %d (theta %s, priority %d) started from the solution tagged %s, expected %s (last accepted solution%s)" % (
                                   k, e["theta"], e["priority"], e["x0"], want, "" if e["priority"] == 1 else " of the previous priority"))
